@@ -40,6 +40,9 @@ func draw(t *rapid.T) *pbt.Case {
 	switch rapid.IntRange(0, 3).Draw(t, "hide") {
 	case 0:
 		s = g.WrapOf(t, rapid.SampledFrom(gen.BarrierKinds).Draw(t, "barrier"), hidden)
+		for j := range s.X {
+			s.X[j] = g.Draw(t, 3) // (error-typed format argument of NewAssertionErrorWithWrappedErrf)
+		}
 	case 1:
 		s = &gen.Spec{K: rapid.SampledFrom([]string{"secondary", "combine"}).Draw(t, "sec"), C: g.Draw(t, 3), X: []*gen.Spec{hidden}}
 	default:
